@@ -16,6 +16,13 @@ Theorem C08_accepted_submit_fills_the_pool :
 Proof. exact accepted_submit_fills_the_pool. Qed.
 Print Assumptions C08_accepted_submit_fills_the_pool.
 
+(* "actually delivered": with submit() not atomic, a registered job on a healthy referenced executor always has a registered worker
+   or a top-up still to come, whatever the interleaving with idle exits, reaps and completions *)
+Theorem C08_registered_job_always_has_a_worker_coming :
+  forall n es, 0 < n -> forallb healthy_ev es = true -> let p := run es (pool0 n) in
+    0 < pending p -> procs p <> [] \/ ensure_due p = true.
+Proof. exact registered_job_always_has_a_worker_coming. Qed.
+Print Assumptions C08_registered_job_always_has_a_worker_coming.
 Theorem C08_structure :
   ensure_running_tops_up_then_starts_manager = true /\ spawn_creates_exit_lock_and_starts = true
   /\ clean_exit_reads_counters_after_the_pop_and_respawns_when_work_waits = true.
